@@ -35,6 +35,9 @@ Arguments Err {A} e.
 Section WithRender.
 (* ImportSet.pretty_print(params) : an arbitrary function of the import set *)
 Variable R : list import -> str.
+(* the tokenizer's verdict in _ends_with_line_continuation(text): no COMMENT token ends on the last physical line
+   of text (a backslash that ends a comment continues nothing) *)
+Variable NC : str -> bool.
 
 (*  SourceToSourceImportBlockTransformation.pretty_print:
       if not allow_conflicts and self.conflicting_imports: raise ConflictingImportsError
@@ -64,10 +67,12 @@ Fixpoint ends_bsnl (s : str) : bool :=
 (*  result = []
     for block in self.blocks:
         text = block.pretty_print(params=params)
-        [F45]  if not text and result and isinstance(block, ImportBlockTransformation) and result[-1] ends with "\\\n": text = "\n"
+        [F45]  if not text and result and isinstance(block, ImportBlockTransformation)
+                  and self._ends_with_line_continuation(result[-1]): text = "\n"
         result.append(text)
     return FileText.concatenate(result)
-    `prev` = the text of the previous block ends with backslash-newline  *)
+    _ends_with_line_continuation(text):  joined.endswith("\\\n") and no COMMENT token ends on the last line
+    `prev` = the previous block's text ends with a line that is really continued  *)
 Fixpoint pp_from (c : cfg) (prev : bool) (bs : list block) : res str :=
   match bs with
   | [] => Ok []
@@ -76,7 +81,7 @@ Fixpoint pp_from (c : cfg) (prev : bool) (bs : list block) : res str :=
               | Ok t0 =>
                   let t := if f45 c && prev && is_nil t0 && (match b with Imps _ => true | Other _ _ => false end)
                            then [c_nl] else t0 in
-                  match pp_from c (ends_bsnl t) r with
+                  match pp_from c (ends_bsnl t && NC t) r with
                   | Err e => Err e
                   | Ok t' => Ok (t ++ t')
                   end
@@ -375,24 +380,25 @@ Definition fix_blocks (c : cfg) (fl : flags) (known : str -> list import) (mand 
       ...; return transformer.output(params)                                                        *)
 Section Tool.
 Variable R : list import -> str.
+Variable NC : str -> bool.
 Variable parse : str -> list block.
 Variable scan : str -> bool -> list (nat * str) * list (nat * import).
 
 Definition tidy (c : cfg) (fl : flags) (known : str -> list import) (mand : list import)
            (bs0 : list block) : res str :=
-  match pp R c bs0 with
+  match pp R NC c bs0 with
   | Err e => Err e
   | Ok t1 =>
       let bs1 := parse t1 in
       let '(ms, us) := scan t1 (remove_unused fl) in
       match fix_blocks c fl known mand bs1 ms us with
       | Err e => Err e
-      | Ok (bs2, _) => pp R c bs2
+      | Ok (bs2, _) => pp R NC c bs2
       end
   end.
 
 (*  reformat_import_statements: transformer.output(params)  *)
-Definition reformat (c : cfg) (bs0 : list block) : res str := pp R c bs0.
+Definition reformat (c : cfg) (bs0 : list block) : res str := pp R NC c bs0.
 End Tool.
 
 (* ---------------------------------------------------------------------------------------------- *)
